@@ -10,6 +10,9 @@ ALPHABETS = [["a", "b"], ["a", "Ã©", "Ã¼"], ["Ã©", "Ã¨", "â‚¬"], ["a", "â‚¬", "â
              ["â‚¬", "ã‚«", "a"], ["ä¸­", "à¸"], ["ğŸ˜Š", "â˜ƒ", "â‚¬"], ["Ã©", "Å©", "Ã£"],
              # falsy symbols: the NUL character (byte 0 after to_bytes) and - for to_cfg only - integer labels incl. 0
              ["\x00", "a", "Ã©"], ["\x00", "b"], [0, 1, 2], [0, 7]]
+# three-byte characters: e6 9c 88, e7 81 ab, e6 b0 b4, e6 9c a8, e9 87 91, e5 9c 9f, e6 97 a5, e6 9b 9c, e6 9c 9f, e3 82 ab,
+# e2 82 ac, e0 b8 81 - shared lead bytes, shared second bytes under different lead bytes (9c under e6 / e5), equal tails
+WIDE = list("æœˆç«æ°´æœ¨é‡‘åœŸæ—¥æ›œæœŸã‚«â‚¬à¸")
 RULE = (
     "case = (generated automaton over an alphabet mixing 1-, 2-, 3- and 4-byte characters with shared byte prefixes, eps "
     "arcs, state names that are ints / tuples / strings coinciding with alphabet symbols as WFSA.from_string produces; "
@@ -36,7 +39,7 @@ def gates(tier):
         "min_decided": {APIS[0]: 5000 * k, APIS[1]: 5000 * k, APIS[2]: 1500 * k, APIS[3]: 1500 * k},
         "shapes": {c: 5 * k for c in ["names:symbol", "names:int", "names:tuple", "eps_arc", "bytes:2", "bytes:3", "bytes:4",
                                       "truncated-encodings", "spliced-encodings", "recursion:left", "recursion:right", "from_string-operand",
-                                      "multichar-terminal", "sr:Q", "sr:Float", "alphabet:ints"]},
+                                      "multichar-terminal", "sr:Q", "sr:Float", "alphabet:ints", "scale:big-automaton-wide-alphabet"]},
         "min_hashseeds": 2,
     }
 
@@ -50,7 +53,17 @@ def gen_case(rng, spec):
     ints = not all(isinstance(a, str) for a in alpha)
     if ints:
         return gen_case_ints(rng, spec, alpha)
-    m = GA.gen_wfsa(rng, max_states=4, alphabet=alpha, max_arcs=7)
+    scale = rng.random() < 0.06
+    if scale:
+        # scale: 7-9 characters of three bytes from different 4K blocks (several lead bytes, repeated continuation bytes),
+        # 8-14 states, a state with many arcs: many byte chains leave one state
+        alpha = rng.sample(WIDE, rng.randint(7, 9))
+        kind = rng.choice(["int", "tuple"])
+        m = GA.gen_big_wfsa(rng, alphabet=alpha, peps=0.1)
+        m.pop("big")
+        m["scale"] = True
+    else:
+        m = GA.gen_wfsa(rng, max_states=4, alphabet=alpha, max_arcs=7)
     if kind == "symbol":
         # state names are strings over the alphabet, as WFSA.from_string / from_strings produce
         pool = [""] + alpha + [a + b for a in alpha[:2] for b in alpha[:2]]
@@ -115,7 +128,7 @@ def gen_case(rng, spec):
     if "nullable_cycle" in an["classes"] or "recursive" in an["classes"]:
         Rg = "Float"
     return {"m": m, "m2": m2, "kind": kind, "from_string": fs, "R": R, "Rg": Rg,
-            "g": {"S": g["S"], "V": terms, "rules": rules}, "maxlen": 3 if spec.get("tier") == "quick" else 4}
+            "g": {"S": g["S"], "V": terms, "rules": rules}, "maxlen": 2 if scale else (3 if spec.get("tier") == "quick" else 4)}
 
 
 def gen_case_ints(rng, spec, alpha):
@@ -186,6 +199,8 @@ def run_case(case, ctx):
         nb = len(a.encode("utf-8"))
         if nb > 1:
             cls.add(f"bytes:{nb}")
+    if m.get("scale"):
+        cls.add("scale:big-automaton-wide-alphabet")
     fp = codec.fingerprint(case)
     collide = bool({q for q in m["names"] if isinstance(q, str)} & set(alpha))
     ctx.case(fp, any(c.startswith("bytes:") for c in cls) or collide, sorted(cls))
